@@ -31,7 +31,7 @@ ASSUMPTIONS = [
 REQUIRED_PROBES = {"quick": ["resp:stray", "reused_connection", "dirty_checkout_discarded", "forged_offered", "embedded_tail_in_flight_after_early_release", "tls_connection_reused"], "thorough": ["resp:stray", "reused_connection", "dirty_checkout_discarded", "forged_offered", "embedded_tail_in_flight_after_early_release", "tls_connection_reused"]}
 
 FORGED = "HTTP/1.1 200 OK\r\nX-Forged: 1\r\nContent-Length: 9\r\n\r\n[FORGED!]"
-HOWS = ["read_all", "read_k_release", "release_unread", "drain", "close_release", "close_only", "stream_all", "stream_part_release", "drop", "data"]
+HOWS = ["read_all", "read_k_release", "release_unread", "drain", "close_release", "close_only", "stream_all", "stream_part_release", "drop", "data", "read1_k_release", "read1_rest_release", "readinto_k_release"]
 
 
 def gen(rng) -> dict:
@@ -178,6 +178,19 @@ def run(sc: dict) -> Result:
                     if ok and not cfg["preload"]:
                         got(rid, d)
                     call("release", r.release_conn)
+                elif how in ("read1_k_release", "read1_rest_release", "readinto_k_release"):
+                    # one piece through the other read APIs (read1 asked for exactly what is still expected may well get less),
+                    # then released
+                    if how == "readinto_k_release":
+                        buf = bytearray(kk)
+                        ok, d = call(how, lambda: r.readinto(buf))
+                        d = bytes(buf[:d]) if ok and isinstance(d, int) else b""
+                    else:
+                        n_ = kk if how == "read1_k_release" or not r.length_remaining else r.length_remaining
+                        ok, d = call(how, lambda: r.read1(n_))
+                    if ok and isinstance(d, bytes) and not cfg["preload"]:
+                        got(rid, d)
+                    call("release", r.release_conn)
                 elif how == "release_unread":
                     call(how, r.release_conn)
                 elif how == "drain":
@@ -241,7 +254,7 @@ def run(sc: dict) -> Result:
             res.probes["dirty_checkout_discarded"] += 1
         if any((ex.get("stray") or "").find("X-Forged") >= 0 for ex in sc["exchanges"][: len(w.requests)]):
             res.probes["forged_offered"] += 1
-        if any(ex.get("split_embed") is not None or ex.get("split_head") is not None for ex in sc["exchanges"][: len(w.requests)]) and any(o["op"] == "dispose" and o["how"] in ("read_k_release", "release_unread", "stream_part_release") for o in sc["ops"]):
+        if any(ex.get("split_embed") is not None or ex.get("split_head") is not None for ex in sc["exchanges"][: len(w.requests)]) and any(o["op"] == "dispose" and o["how"] in ("read_k_release", "release_unread", "stream_part_release", "read1_k_release", "read1_rest_release", "readinto_k_release") for o in sc["ops"]):
             res.probes["embedded_tail_in_flight_after_early_release"] += 1
         if cfg["path"] == "direct_tls" and len(sids) != len(set(sids)):
             res.probes["tls_connection_reused"] += 1
